@@ -282,6 +282,27 @@ class Oracles:
         ): "serial path only: p.dtm is the wall clock and the interval is <= 6553.5 s",
     }
 
+    def phase_selfcheck(self, f: FuncInfo, node: ast.AST, cls: str) -> str | None:
+        """`assert Message._from_cmd(cmd).payload["phase"] == BindPhase.X` right after `cmd = Command.put_bind(...)`:
+        a self-check on the library's own command (its phase follows from the verb/dst passed in: C20.R5 + C03)."""
+        if not (isinstance(node, ast.Assert) and cls.endswith("AssertionError")):
+            return None
+        t = node.test
+        if not (isinstance(t, ast.Compare) and len(t.ops) == 1 and isinstance(t.ops[0], ast.Eq)):
+            return None
+        left = ast.unparse(t.left)
+        if not (left.startswith("Message._from_cmd(") and left.endswith(".payload['phase']") and ast.unparse(t.comparators[0]).startswith("BindPhase.")):
+            return None
+        arg = t.left.value.value.args[0] if isinstance(t.left, ast.Subscript) and isinstance(t.left.value, ast.Attribute) and isinstance(t.left.value.value, ast.Call) and t.left.value.value.args else None
+        if not isinstance(arg, ast.Name):
+            return None
+        d = _single_def(f, arg.id)
+        if d is None or not ast.unparse(d).startswith("Command.put_bind("):
+            return None
+        why = "self-check on the command just built by Command.put_bind (not on received text)"
+        self.used[f"phase-selfcheck:{f.qualname}"] = why
+        return why
+
     def named(self, f: FuncInfo, node: ast.AST, cls: str, detail: str) -> str | None:
         why = self.NAMED.get((f.qualname, cls.rsplit(".", 1)[-1], detail))
         if why:
@@ -347,6 +368,7 @@ class Oracles:
             or self.table_regex(f, node, cls)
             or self.subset_guard(f, node, cls)
             or self.nonempty_pop(f, node, cls)
+            or self.phase_selfcheck(f, node, cls)
             or self.named(f, node, cls, detail)
         )
 
